@@ -5,7 +5,9 @@
    than 65 536 characters (gene / transcript ids: None or fewer than 65 535), lists of fewer than 2^32 elements,
    dictionaries with pairwise different keys, penalties as fixed-point integers k = int(p * 2^20) < 2^32,
    EVERY member of ReadAssignmentType / MatchClassification / MatchEventSubtype (as regenerated from the sources).
-   `c_ra true` is the format with the repaired read_dict (fixes/C15_read_dict_sign.diff), `c_ra false` the code before it. *)
+   `c_ra true` is the format with the repaired read_dict (fixes/C15_read_dict_sign.diff), `c_ra false` the code before it.
+   `c_ghead true` is the gene header that also carries the reference window of the reads (all_read_region_start / _end;
+   fixes/C18_serialize_read_region.diff), `c_ghead false` the layout before it. *)
 From Coq Require Import ZArith NArith List Bool QArith.
 From IQ Require Import Codec0 SaveFormat SaveFormat2.
 From IQ.gen Require Import Tables.
@@ -33,9 +35,22 @@ Theorem C15_basic_assignment_roundtrip : forall b rest, basic_wf b -> dec c_basi
 Proof. intros b rest H. apply rt_basic, basic_wf_dom, H. Qed.
 Print Assumptions C15_basic_assignment_roundtrip.
 
-Theorem C15_gene_header_roundtrip : forall g rest, ghead_wf g -> dec c_ghead (enc c_ghead g ++ rest) = Some (g, rest).
+(* gene header with the reference window of the reads: every header, whatever its window *)
+Theorem C15_gene_header_roundtrip : forall g rest, ghead_wf true g -> dec (c_ghead true) (enc (c_ghead true) g ++ rest) = Some (g, rest).
 Proof. intros g rest H. apply rt_ghead, ghead_wf_dom, H. Qed.
 Print Assumptions C15_gene_header_roundtrip.
+(* the layout before the repair does not store the window: it comes back as the gene region, so only those headers survive whose window
+   IS the gene region (ghead_wf false demands it) - which is false for every read region reaching beyond the genes (C18:intron-outside-window) *)
+Theorem C15_gene_header_roundtrip_unrepaired : forall g rest,
+  u32 (g_delta g) -> list_wf short_ascii (g_genes g) -> short_ascii (g_chr g) -> u32 (g_start g) -> u32 (g_end g) ->
+  g_rstart g = g_start g -> g_rend g = g_end g ->
+  dec (c_ghead false) (enc (c_ghead false) g ++ rest) = Some (g, rest).
+Proof. intros g rest H1 H2 H3 H4 H5 H6 H7. apply rt_ghead, ghead_wf_dom. exact (conj H1 (conj H2 (conj H3 (conj H4 (conj H5 (conj H6 H7)))))). Qed.
+Print Assumptions C15_gene_header_roundtrip_unrepaired.
+Example C15_gene_header_window_lost_unrepaired :
+  dec (c_ghead false) (enc (c_ghead false) (MkGene 6 [] [] 3395440 3453804 3391000 3460000)) = Some (MkGene 6 [] [] 3395440 3453804 3395440 3453804, []) /\
+  dec (c_ghead true) (enc (c_ghead true) (MkGene 6 [] [] 3395440 3453804 3391000 3460000)) = Some (MkGene 6 [] [] 3395440 3453804 3391000 3460000, []).
+Proof. exact ghead_window_lost_unrepaired. Qed.
 
 (* --- the primitives of serialization.py *)
 Theorem C15_primitives_roundtrip :
@@ -78,16 +93,16 @@ Proof. intros a H. apply basic_penalty_zero. eapply penalties_nonneg_of_wf, H. Q
 Print Assumptions C15_basic_penalty_zero.
 
 (* --- stream framing: any sequence of gene headers, each followed by any number of assignments, then the terminator *)
-Theorem C15_stream_roundtrip : forall gs rest, Forall (fun g => ghead_wf (fst g) /\ Forall (ra_wf true) (snd g)) gs ->
-  dec_save_full true (enc_save true gs ++ rest) = Some (gs, rest).
-Proof. intros gs rest H. apply stream_roundtrip. eapply Forall_impl; [|exact H].
+Theorem C15_stream_roundtrip : forall rr gs rest, Forall (fun g => ghead_wf rr (fst g) /\ Forall (ra_wf true) (snd g)) gs ->
+  dec_save_full true rr (enc_save true rr gs ++ rest) = Some (gs, rest).
+Proof. intros rr gs rest H. apply stream_roundtrip. eapply Forall_impl; [|exact H].
   intros g [Hg Hr]. split; [apply ghead_wf_dom, Hg|]. eapply Forall_impl; [|exact Hr]. intros a Ha. apply ra_wf_dom, Ha. Qed.
 Print Assumptions C15_stream_roundtrip.
 
 (* the abridged loader reads the same stream to the same end and yields the projections, group by group *)
-Theorem C15_stream_quick_aligned : forall gs rest, Forall (fun g => ghead_wf (fst g) /\ Forall (fun a => ra_wf true a /\ ra_exons a <> []) (snd g)) gs ->
-  dec_save_quick true (enc_save true gs ++ rest) = Some (map (fun g => (tt, map basic_of (snd g))) gs, rest).
-Proof. intros gs rest H. apply stream_quick_aligned.
+Theorem C15_stream_quick_aligned : forall rr gs rest, Forall (fun g => ghead_wf rr (fst g) /\ Forall (fun a => ra_wf true a /\ ra_exons a <> []) (snd g)) gs ->
+  dec_save_quick true rr (enc_save true rr gs ++ rest) = Some (map (fun g => (tt, map basic_of (snd g))) gs, rest).
+Proof. intros rr gs rest H. apply stream_quick_aligned.
   - eapply Forall_impl; [|exact H]. intros g [Hg Hr]. split; [apply ghead_wf_dom, Hg|]. eapply Forall_impl; [|exact Hr]. intros a [Ha _]. apply ra_wf_dom, Ha.
   - eapply Forall_impl; [|exact H]. intros g [_ Hr]. eapply Forall_impl; [|exact Hr]. intros a [_ Ha]. exact Ha. Qed.
 Print Assumptions C15_stream_quick_aligned.
